@@ -45,6 +45,22 @@ func boolExprValue(e string, asg map[string]string) (bool, bool, []string) {
 	if v, ok := asg[e]; ok {
 		return v == "true", true, nil
 	}
+	// a set test `subj∈{a|b}` used as a boolean term (comma-ok type assertion inside a condition)
+	if !strings.Contains(e, " && ") && !strings.Contains(e, " || ") {
+		if subj, elems, neg, ok := parseSetGuard(e); ok {
+			v, has := asg[subj]
+			if !has {
+				return false, false, []string{subj}
+			}
+			in := false
+			for _, el := range elems {
+				if strings.Trim(el, "\"") == v {
+					in = true
+				}
+			}
+			return in != neg, true, nil
+		}
+	}
 	if strings.HasPrefix(e, "!(") && strings.HasSuffix(e, ")") && balanced(e[2:len(e)-1]) {
 		v, k, u := boolExprValue(e[2:len(e)-1], asg)
 		return !v, k, u
